@@ -207,6 +207,18 @@ func miceGrid(args []string) error {
 				miDecEvent("b"+strconv.Itoa(id)+"d", draft, dg, st, 16384, modes[id%6], []int{1000, rs, 70000}[r.Intn(3)], r, p, true, "honest")
 			}
 		}
+		// record sizes ABOVE the signed-exchange cap, decoded by a caller that allows them (the limit is the caller's argument,
+		// not a property of the encoding): 16385, 20000, 65536, under a limit equal to the size and under a generous one
+		for _, rs := range []int{16385, 20000, 65536} {
+			for _, l := range []int{1, rs - 1, rs, rs + 1} {
+				for _, max := range []uint64{uint64(rs), 1 << 20} {
+					id++
+					p := miPayload(r, l)
+					st, dg := miEncEvent("B"+strconv.Itoa(id), draft, rs, p)
+					miDecEvent("B"+strconv.Itoa(id)+"d", draft, dg, st, max, modes[id%6], []int{1000, rs, 70000}[r.Intn(3)], r, p, true, "honest")
+				}
+			}
+		}
 		n := 60
 		if thorough {
 			n = 600
